@@ -265,15 +265,24 @@ func (c *Classifier) Normalize(in []byte) []byte {
 
 	var buf bytes.Buffer
 
-	switch len(doc.Tokens) {
-	case 0:
+	if len(doc.Tokens) == 0 {
 		return nil
-	case 1:
+	}
+
+	// The line number can advance without an EOL token: the rest of a line
+	// that starts with the end of a word hyphenated across a line break is
+	// credited to the next line. Write one line break for every line step, so
+	// that words keep their separators and their line numbers.
+	prevLine := 1
+	for ; prevLine < doc.Tokens[0].Line; prevLine++ {
+		buf.WriteString(eol)
+	}
+
+	if len(doc.Tokens) == 1 {
 		buf.WriteString(c.dict.getWord(doc.Tokens[0].ID))
 		return buf.Bytes()
 	}
 
-	prevLine := 1
 	// An input starting with an empty line has an EOL as its first token; the
 	// loop below emits the line break when it reaches the first token of the
 	// next line, so writing the EOL itself here would add a second one.
@@ -282,7 +291,7 @@ func (c *Classifier) Normalize(in []byte) []byte {
 	}
 	for _, t := range doc.Tokens[1:] {
 		// Only write out an EOL token that incremented the line
-		if t.Line == prevLine+1 {
+		for l := prevLine; l < t.Line; l++ {
 			buf.WriteString(eol)
 		}
 
